@@ -387,7 +387,7 @@ theorem scanCore_spec (scan : Nat → ScanRes) (len : Nat) (hlen : len ≤ xmpMa
   split at h
   · cases h
   · rename_i ht
-    have inv := seqLoop_inv scan len hlen (len + 1) _ (init_inv len hlen (scan 0) ht 1 [(0, 0)])
+    have inv := seqLoop_inv scan len hlen (len + 1) _ (init_inv len hlen (firstScan scan len) ht 1 [(0, 0)])
     injection h with h
     subst h
     simp only
